@@ -422,31 +422,69 @@ def generate():
             raise Unsupported("__exit__: unpacking shape " + _src(un[0]))
         body += "/-- `%s` -/\n" % _src(un[0])
         body += "def catchUnpackPrefix : List Py.Str := [%s]\n" % ", ".join(lean_chars(x) for x in pre)
-        # if from_decorator: depth += K   (the only other assignment to depth)
-        aug = [s for s in etop if isinstance(s, ast.If) and any(isinstance(n, (ast.AugAssign, ast.Assign)) and
-               "depth" in [_src(t) for t in (getattr(n, "targets", None) or [n.target])] for n in ast.walk(s))]
-        n_depth_stores = es.get("depth", 0)
-        if len(aug) == 0 and n_depth_stores == 1:
-            body += "/-- no adjustment of depth in `Catcher.__exit__` -/\n"
-            body += "def catchDepth (fromDecorator : Bool) (depth : Int) : Int := depth\n"
-        elif len(aug) == 1 and n_depth_stores == 2 and _src(aug[0].test) == "from_decorator" and not aug[0].orelse \
-                and len(aug[0].body) == 1 and isinstance(aug[0].body[0], ast.AugAssign) \
-                and isinstance(aug[0].body[0].op, (ast.Add, ast.Sub)) and _src(aug[0].body[0].target) == "depth":
-            if etop.index(aug[0]) < etop.index(un[0]):
+        # __exit__(self, type_, value, traceback_[, *, _frames=<int>])
+        if [a.arg for a in ex.args.args] != ["self", "type_", "value", "traceback_"] or ex.args.vararg or ex.args.kwarg \
+                or ex.args.defaults:
+            raise Unsupported("__exit__ signature " + _src(ex.args))
+        kwonly = [a.arg for a in ex.args.kwonlyargs]
+        env = {"depth": ("depth", "int")}
+        frames_default = 0
+        if kwonly == ["_frames"]:
+            dflt = ex.args.kw_defaults[0]
+            if not (isinstance(dflt, ast.Constant) and type(dflt.value) is int):
+                raise Unsupported("__exit__: default of _frames")
+            frames_default = dflt.value
+            env["_frames"] = ("frames", "int")
+            if es.get("_frames", 0) != 1:
+                raise Unsupported("__exit__: _frames reassigned")
+        elif kwonly:
+            raise Unsupported("__exit__ keyword-only parameters %r" % kwonly)
+        body += "/-- default of the keyword-only `_frames` parameter of `Catcher.__exit__` (0 when absent) -/\n"
+        body += "def exitFramesDefault : Int := (%d : Int)\n" % frames_default
+        # every statement of __exit__ that assigns depth after the unpacking, in order:
+        #   `if from_decorator: depth += K`   and   `depth += <expr over _frames>`
+        term = "depth"
+        doc = []
+        n_adj = 0
+        first_adj = None
+        for st in etop:
+            touches = any(isinstance(n, ast.Name) and n.id == "depth" and isinstance(n.ctx, ast.Store) for n in ast.walk(st))
+            if not touches or st is un[0]:
+                continue
+            if etop.index(st) < etop.index(un[0]):
                 raise Unsupported("__exit__: depth adjusted before it is unpacked")
-            inc, typ = Tr({"depth": ("depth", "int")}).tr(aug[0].body[0].value)
-            if typ != "int":
-                raise Unsupported("depth increment type")
-            op = "+" if isinstance(aug[0].body[0].op, ast.Add) else "-"
-            body += "/-- `if from_decorator: %s` in `Catcher.__exit__` -/\n" % _src(aug[0].body[0])
-            body += "def catchDepth (fromDecorator : Bool) (depth : Int) : Int := (if fromDecorator then (depth %s %s) else depth)\n" % (op, inc)
-        else:
-            raise Unsupported("__exit__: depth adjustment shape")
+            if first_adj is None:
+                first_adj = st
+            if isinstance(st, ast.If) and _src(st.test) == "from_decorator" and not st.orelse and len(st.body) == 1 \
+                    and isinstance(st.body[0], ast.AugAssign) and isinstance(st.body[0].op, (ast.Add, ast.Sub)) \
+                    and _src(st.body[0].target) == "depth":
+                inc, typ = Tr(env).tr(st.body[0].value)
+                if typ != "int":
+                    raise Unsupported("depth increment type")
+                op = "+" if isinstance(st.body[0].op, ast.Add) else "-"
+                term = "(if fromDecorator then (%s %s %s) else %s)" % (term, op, inc, term)
+                doc.append("if from_decorator: " + _src(st.body[0]))
+            elif isinstance(st, ast.AugAssign) and isinstance(st.op, (ast.Add, ast.Sub)) and _src(st.target) == "depth":
+                inc, typ = Tr(env).tr(st.value)
+                if typ != "int":
+                    raise Unsupported("depth increment type")
+                op = "+" if isinstance(st.op, ast.Add) else "-"
+                term = "(%s %s %s)" % (term, op, inc)
+                doc.append(_src(st))
+            else:
+                raise Unsupported("__exit__: depth adjustment shape " + _src(st))
+            n_adj += 1
+        if es.get("depth", 0) != 1 + n_adj:
+            raise Unsupported("__exit__: depth is assigned %d times, %d understood" % (es.get("depth", 0), 1 + n_adj))
+        aug = [first_adj] if first_adj is not None else []
+        body += "/-- `%s` in `Catcher.__exit__` -/\n" % ("; ".join(doc) or "no adjustment of depth")
+        body += "def catchDepth (fromDecorator : Bool) (frames : Int) (depth : Int) : Int := %s\n" % term
         co = [s for s in etop if isinstance(s, ast.Assign) and _src(s.targets[0]) == "catch_options"]
         if len(co) != 1 or not isinstance(co[0].value, (ast.List, ast.Tuple)):
             raise Unsupported("__exit__: catch_options")
-        if aug and etop.index(co[0]) < etop.index(aug[0]):
-            raise Unsupported("__exit__: catch_options built before the depth adjustment")
+        for st in etop[etop.index(co[0]):]:
+            if any(isinstance(n, ast.Name) and n.id == "depth" and isinstance(n.ctx, ast.Store) for n in ast.walk(st)):
+                raise Unsupported("__exit__: depth adjusted after catch_options is built")
         rpre, rstar = [], None
         for e in co[0].value.elts:
             if isinstance(e, ast.Starred):
@@ -512,7 +550,7 @@ def generate():
                 raise Unsupported("__call__: catch_wrapper of branch " + test)
             n = _toplevel_with(fns[0], "catcher")
             if n == 1:
-                crow.append((kind_of[test], ["__exit__", "catch_wrapper"], dec_flag))
+                crow.append((kind_of[test], ["__exit__", "catch_wrapper"], dec_flag, frames_default))
                 continue
             if n > 1:
                 raise Unsupported("several `with catcher` in " + test)
@@ -524,26 +562,71 @@ def generate():
                     if isinstance(f, (ast.FunctionDef, ast.AsyncFunctionDef)) and not f.decorator_list:
                         k = _toplevel_with(f, "catcher")
                         if k == 1:
-                            crow.append((kind_of[test] + "." + f.name, ["__exit__", f.name], dec_flag))
+                            crow.append((kind_of[test] + "." + f.name, ["__exit__", f.name], dec_flag, frames_default))
                             found += 1
+                            holder = (c, f.name)
                         elif k > 1:
                             raise Unsupported("several `with catcher` in " + f.name)
             if not found:
                 raise Unsupported("branch %s never enters the catcher" % test)
+            if kind_of[test] == "asyncgen":
+                # `async for` / anext() reach the wrapper through __anext__: either the class defines it, or it is
+                # the mixin of collections.abc.AsyncGenerator (an `async def` awaiting self.asend(None): one more frame)
+                if found != 1 or holder[1] != "asend":
+                    raise Unsupported("asyncgen wrapper: the catcher is not entered in asend alone")
+                c = holder[0]
+                if [_src(b_) for b_ in c.bases] != ["AsyncGenerator"] or c.keywords or c.decorator_list:
+                    raise Unsupported("asyncgen wrapper bases")
+                meths = {f.name: f for f in c.body if isinstance(f, (ast.FunctionDef, ast.AsyncFunctionDef))}
+                wrapper_methods = [f.name for f in c.body if isinstance(f, (ast.FunctionDef, ast.AsyncFunctionDef))]
+                if len(meths) != len(wrapper_methods):
+                    raise Unsupported("asyncgen wrapper: a method is defined twice")
+                unknown = set(meths) - {"__init__", "asend", "athrow", "aclose", "__anext__"}
+                if unknown:
+                    raise Unsupported("asyncgen wrapper: unexpected methods %r" % sorted(unknown))
+                an = meths.get("__anext__")
+                if an is None:
+                    chain = ["__exit__", "asend", "__anext__"]        # inherited stdlib coroutine
+                else:
+                    ab_ = _body(an)
+                    if an.decorator_list or len(ab_) != 1 or not isinstance(ab_[0], ast.Return):
+                        raise Unsupported("__anext__ shape")
+                    v = ab_[0].value
+                    if isinstance(an, ast.FunctionDef) and _src(v) == "self.asend(None)":
+                        chain = ["__exit__", "asend"]                 # hands the asend coroutine over: no frame of its own
+                    elif isinstance(an, ast.AsyncFunctionDef) and _src(v) == "await self.asend(None)":
+                        chain = ["__exit__", "asend", "__anext__"]
+                    else:
+                        raise Unsupported("__anext__ body " + _src(v))
+                crow.append(("asyncgen.__anext__", chain, dec_flag, frames_default))
         # plain context manager / async context manager
-        crow.append(("with", ["__exit__"], cm_flag))
+        crow.append(("with", ["__exit__"], cm_flag, frames_default))
         ax = cm.get("__aexit__")
         if ax is not None:
             ab = _body(ax)
             if ax.decorator_list or len(ab) != 1 or not isinstance(ab[0], ast.Return) \
                     or not isinstance(ab[0].value, ast.Call) or _src(ab[0].value.func) != "self.__exit__":
                 raise Unsupported("__aexit__ shape")
-            crow.append(("async with", ["__exit__", "__aexit__"], cm_flag))
+            acall = ab[0].value
+            if [_src(x) for x in acall.args] != ["type_", "value", "traceback_"]:
+                raise Unsupported("__aexit__ arguments " + _src(acall))
+            fr = frames_default
+            for kw in acall.keywords:
+                if kw.arg == "_frames" and isinstance(kw.value, ast.Constant) and type(kw.value.value) is int \
+                        and "_frames" in env:
+                    fr = kw.value.value
+                else:
+                    raise Unsupported("__aexit__ keyword " + _src(acall))
+            if isinstance(ax, ast.FunctionDef):
+                raise Unsupported("__aexit__ is not a coroutine function")
+            crow.append(("async with", ["__exit__", "__aexit__"], cm_flag, fr))
         body += "/-- ways of reaching `_log` through catch(): library frames between `_log` and user code -/\n"
         body += "def catchRows : List CatchRow := [\n" + ",\n".join(
-            "  { shape := %s, chain := [%s], fromDecorator := %s }" % (
-                lean_chars(k), ", ".join(lean_chars(c) for c in ch), "true" if fl else "false")
-            for k, ch, fl in crow) + "]\n\n"
+            "  { shape := %s, chain := [%s], fromDecorator := %s, frames := (%d : Int) }" % (
+                lean_chars(k), ", ".join(lean_chars(c) for c in ch), "true" if fl else "false", fr)
+            for k, ch, fl, fr in crow) + "]\n\n"
+        body += "/-- methods the async-generator wrapper class defines itself -/\n"
+        body += "def asyncGenWrapperMethods : List Py.Str := [%s]\n\n" % ", ".join(lean_chars(x) for x in wrapper_methods)
 
         # ------------------------------------------------------------------ _get_frame.py
         gtree, gsrc = parse_module("_get_frame.py")
@@ -557,6 +640,38 @@ def generate():
             raise Unsupported("get_frame = load_get_frame_function()")
         body += "/-- `get_frame` is `sys._getframe` whenever the interpreter has it -/\n"
         body += "def getFrameIsSysGetframe : Bool := true\n"
+        # get_frame_fallback: raise/except, frame = exc_info()[2].tb_frame.f_back, the f_back loop, the None checks
+        fb = find_func(gtree, "get_frame_fallback")
+        if [a.arg for a in fb.args.args] != ["n"] or len(fb.body) != 1 or not isinstance(fb.body[0], ast.Try):
+            raise Unsupported("get_frame_fallback shape")
+        ft = fb.body[0]
+        if [_src(x) for x in ft.body] != ["raise Exception"] or len(ft.handlers) != 1 or ft.orelse or ft.finalbody \
+                or _src(ft.handlers[0].type) != "Exception":
+            raise Unsupported("get_frame_fallback try shape")
+        hb = list(ft.handlers[0].body)
+        if len(hb) < 3 or _src(hb[0]) != "frame = exc_info()[2].tb_frame.f_back" or _src(hb[-1]) != "return frame" \
+                or not isinstance(hb[1], ast.For) or _src(hb[1].target) != "_" or _src(hb[1].iter) != "range(n)" or hb[1].orelse:
+            raise Unsupported("get_frame_fallback body")
+        loop = [_src(x) for x in hb[1].body]
+        if loop == ["frame = frame.f_back"]:
+            breaks = "false"
+        elif loop == ["if frame is None:\n    break", "frame = frame.f_back"]:
+            breaks = "true"
+        else:
+            raise Unsupported("get_frame_fallback loop %r" % loop)
+        mid = hb[2:-1]
+        if not mid:
+            raises = "false"
+        elif len(mid) == 1 and isinstance(mid[0], ast.If) and _src(mid[0].test) == "frame is None" and not mid[0].orelse \
+                and len(mid[0].body) == 1 and isinstance(mid[0].body[0], ast.Raise) and isinstance(mid[0].body[0].exc, ast.Call) \
+                and _src(mid[0].body[0].exc.func) == "ValueError":
+            raises = "true"
+        else:
+            raise Unsupported("get_frame_fallback tail " + "; ".join(_src(x) for x in mid))
+        body += "/-- the fallback's loop stops at `None` instead of reading `None.f_back` -/\n"
+        body += "def fallbackBreaksOnNone : Bool := %s\n" % breaks
+        body += "/-- the fallback raises ValueError (like sys._getframe) when the walk ends on `None` -/\n"
+        body += "def fallbackRaisesOnNone : Bool := %s\n" % raises
     except (Unsupported, SyntaxError, KeyError, AttributeError, IndexError, ValueError) as e:
         errors.append("%s: %s" % (type(e).__name__, e))
     body += "\nend Frames.Gen\n"
